@@ -529,6 +529,9 @@ impl<A: AApi> Sut for ASut<A> {
         }
         c
     }
+    fn record_bytes(&self) -> Option<usize> {
+        Some(A::val().0)
+    }
     fn nontrivial(&self, state: &[u8]) -> bool {
         let d = adecode::<A>(state);
         d.len >= 2 && d.len < d.vals.len()
